@@ -263,6 +263,51 @@ pub fn run(run: &Run) {
       (prop_oneof![5 => gens::padded(prop_oneof![9 => vec(ch.clone(), 0..=24), 1 => vec(ch, 0..=200)].prop_map(gens::s_of).boxed()), 1 => gens::ascii_words()], 0..2usize)
     };
     run.prop("random", run.pick(3_000_000, 100_000_000), mk, |(s, pi), l| check(profs[*pi], s, l));
+    run.prop("random_ascii_text", run.pick(1_500_000, 40_000_000), || (gens::ascii_text(), 0..2usize), |(s, pi), l| check(profs[*pi], s, l));
+    // all strings of length <= 9 over {space, '!' (U+0020 + 1), U+001F, 'a'}, bare and behind / in front of ASCII pads of 13..40 bytes
+    super::pipe::enum_strings(run, "enum_space_neighbours", &[' ', '!', '\u{1f}', 'a'], run.pick(9, 10), &|s, l| {
+        for p in profs {
+            if check(p, s, l).is_err() {
+                shrink_and_report(run, p, s);
+                return false;
+            }
+        }
+        true
+    });
+    {
+        let mut all = Vec::new();
+        for core_len in 0..=6u32 {
+            for idx in 0..4u64.pow(core_len) {
+                let mut rem = idx;
+                let mut core = String::new();
+                for _ in 0..core_len {
+                    core.push([' ', '!', '\u{3000}', 'a'][(rem % 4) as usize]);
+                    rem /= 4;
+                }
+                for (a, b) in [("Hello, world", " ok."), ("abcdefghijklmnop ", "q"), (" abcdefghijklmnopqrstuvwxyz0123456789", "!!"), ("ab  ", " cdefghijklmnopqrstuvwxyz0123456789")] {
+                    all.push(format!("{a}{core}{b}"));
+                }
+            }
+        }
+        // long runs of spaces in front of a second repair further on
+        for n in (1..=40usize).chain([63, 64, 65, 127, 128, 129, 255, 256, 257, 1000, 4096]) {
+            for lead in [0usize, 1, 9, 16] {
+                for tail in ["cd  efghijklmnopqrstuvwxyz0123456789", "cd \u{3000}efghijklmnop", "c d e  f", "cdefghijklmnopqrstuvwxyz  0123456789 !! x", "cd"] {
+                    all.push(format!("{}ab{}{tail}", " ".repeat(lead), " ".repeat(n)));
+                    all.push(format!("{}ab{}{tail} ", " ".repeat(lead), " ".repeat(n)));
+                }
+            }
+        }
+        super::pipe::battery(run, "space_runs_then_second_repair", &all, &|s, l| {
+            for p in profs {
+                if check(p, s, l).is_err() {
+                    shrink_and_report(run, p, s);
+                    return false;
+                }
+            }
+            true
+        });
+    }
     // short enumerated strings behind / in front of long pads
     let pads: Vec<(String, String)> = vec![(gens::pad(1, 5), String::new()), (gens::pad(3, 8), "z".into()), (String::new(), gens::pad(2, 9)), (gens::pad(5, 13), gens::pad(0, 3))];
     let plen = run.pick(4usize, 5usize);
